@@ -91,6 +91,15 @@ theorem tie_syncState :
       "cond err != nil", "{", "return err", "}", "return nil"] := by
   decide
 
+/-- `storageCluster.DropDatabaseAssignment` deletes exactly one repository key, the dropped
+database's own assignment path (no listing by prefix, no loop) — the model's `dropDb` erases
+exactly the entries keyed by that database (`drop_keeps_other_databases`). -/
+theorem tie_dropDatabaseAssignment :
+    Generated.C18.dropDatabaseAssignmentShape = ["if", "assign err = call repo.Delete", "cond err != nil",
+      "{", "return err", "}", "return nil"] ∧
+    Generated.C18.dropDatabaseAssignmentCalls = ["constants.GetShardAssignPath", "repo.Delete"] := by
+  decide
+
 /-! ## 2. Every shard gets exactly `rf` distinct nodes of the live list -/
 
 /-- what the property demands of one shard's replica list -/
@@ -422,6 +431,22 @@ theorem created_on_live_nodes_all_online (es : List Event) (hw : ∀ e ∈ es, W
   have hon : s.state = stOnline := hso.online_iff.mpr ⟨r0, hr0, hlive r0 (hsub r0 hr0)⟩
   obtain ⟨l, k1, k2, k3⟩ := hso.leader_ok hon
   exact ⟨hon, l, k1, k2, hso.replicas_eq ▸ k3⟩
+
+/-- dropping a database leaves every other database's assignment and shard states untouched
+(and the live set) -/
+theorem drop_keeps_other_databases (st : St) (db db' : Nat) (h : db ≠ db') :
+    Map.lookup (step st (.dropDb db)).asg db' = Map.lookup st.asg db' ∧
+    Map.lookup (step st (.dropDb db)).shards db' = Map.lookup st.shards db' ∧
+    (step st (.dropDb db)).live = st.live := by
+  have hs : step st (.dropDb db) = if st.dbs.contains db then
+      { st with dbs := st.dbs.filter (· ≠ db), asg := Map.erase st.asg db,
+                shards := Map.erase st.shards db } else st := rfl
+  rw [hs]
+  by_cases hc : st.dbs.contains db
+  · rw [if_pos hc]
+    exact ⟨Map.lookup_erase_ne _ _ _ h, Map.lookup_erase_ne _ _ _ h, rfl⟩
+  · rw [if_neg hc]
+    exact ⟨rfl, rfl, rfl⟩
 
 /-! ## 7. Delivery from `EmitEvent` to `processEvent` -/
 
